@@ -1,26 +1,23 @@
 /-
   C12 — the script listing and the position marker show exactly what executes next.
 
-  Property theorems only (definitions and invariants: BtcdebProofs/Lemmas/Marker.lean, StepCases.lean,
-  Listing.lean).  Model: `Btcdeb/Model/Listing.lean` (`buildListing` = the construction of `script_lines`
-  in btcdeb.cpp main, `markedLine` / `echoLine` = `fn_print` / `fn_step` / `fn_rewind`), sessions:
-  `Btcdeb/Model/Session.lean`.  Specification: `Btcdeb/Spec/Listing.lean` (`idealListing` = the decoding
-  of everything that will be executed, in execution order; `pending` = the operation the next step performs).
+  Property theorems (definitions and invariants: BtcdebProofs/Lemmas/Marker.lean, StepCases.lean, Listing.lean).
+  Model: `Btcdeb/Model/Listing.lean` (`buildListing` = the construction of `script_lines` in btcdeb.cpp main,
+  `markedLine` / `echoLine` = `fn_print` / `fn_step` / `fn_rewind`, `fnStep`), sessions: `Btcdeb/Model/Session.lean`.
+  Specification: `Btcdeb/Spec/Listing.lean` (`idealListing` = the decoding of everything that will be executed, in
+  execution order; `pending` = the operation the next step performs).
 
-  Results:
-  * `C12_marker_histories` / `C12_marker_reach`: for EVERY session (any script, spend kind, checker) and every
-    history of steps and rewinds without a failing step, the line number `curr_op_seq` designates, in the
-    execution-order decoding, exactly the operation the next step performs; nothing at the end.
-  * `C12_listing_exact`, `C12_marked_line`, `C12_plain`, `C12_legacy_spend`: for sessions without a taproot
-    commitment phase whose pushes are at most 514 bytes the listing the debugger builds IS that decoding,
-    so the line it marks is the pending operation (plain scripts, P2WSH, legacy spends incl. P2SH).
-  * FINDINGS, each with the theorem that delimits it:
-    - taproot script path: `Description()` yields m+2 lines for m+1 commitment steps
-      (`C12_listing_tapscript`); the marker is right while `curr_op_seq < m` (`C12_marker_tapscript_partial`)
-      and lags by exactly one line afterwards (`C12_marker_tapscript_lag`);
-    - texts longer than 1029 characters (pushes ≥ 515 bytes) are cut (`C12_long_push_cut`); hypothesis `NoLongPush`;
-    - histories containing a FAILED step are outside the theorems: the debugger leaves the position behind
-      the failed instruction while the marker stays (`fnStep`, last example).
+  Results, for EVERY session kind (plain scripts, legacy spends with scriptPubKey and P2SH sections, P2WSH, taproot
+  script paths of any length), pushes of any length, any signature checker, and every history of `step` / `rewind`
+  commands — including steps that FAIL (a failed step leaves the session as it was):
+  * `C12_listing_exact`: the listing the debugger builds is exactly the execution-order decoding;
+  * `C12_session` (= `C12_marked_line` over `runCmds`): at every point the marked / echoed line is the operation the
+    next step performs, no line is marked when nothing is pending, and `curr_op_seq` is never negative;
+  * `C12_marker_histories` / `C12_marker_reach` / `C12_nothing_pending_at_end`: the same at the level of the
+    execution-order decoding, for every fresh session.
+  Hypotheses that remain (`Fresh`, `hstack`, `htap`) describe what `setup_environment` / `configure_tx_txin` establish;
+  one of them (`htap`: a tapscript is not treated as a P2SH scriptPubKey) excludes a combination in which the real
+  code still misbehaves (see the check, `F-C12-tapscript-p2sh-pattern-leaf`).
 -/
 import Btcdeb
 import BtcdebProofs.Lemmas.Marker
@@ -28,12 +25,11 @@ namespace Btcdeb.Proofs.C12
 open Btcdeb Btcdeb.Model
 
 /-- MAIN THEOREM (marker, every history).  For every session, signature checker and history over
-    {step, rewind} in which no step fails (any length): the line whose number is `curr_op_seq` in the
+    {step, rewind} without a failing step (any length; failing steps: `C12_session`): the line whose number is `curr_op_seq` in the
     execution-order decoding of the session (`Spec.idealListing`) is exactly the operation the next
     `step` performs, and no line has that number when nothing is pending.
     `hpred` (only relevant for a P2SH scriptPubKey): the redeem script announced is the one on top of
-    the stack when the scriptPubKey is entered; discharged for data-push-only scriptSigs by
-    `predOk_of_pushOnly`. -/
+    the stack when the scriptPubKey is entered; discharged for every fresh session by `predOk_holds`. -/
 theorem C12_marker_histories (cx : Ctx) (tc : TapCtx) (r : Bytes) (e0 : IEnv) (hf : Fresh e0)
     (hpred : ∀ j e, C04.advance cx tc e0 j = some e → PredOk r e)
     (cmds : List C04.Cmd) (e : IEnv) (n : Int) (h : C04.execHist cx tc cmds (e0, 0) = some (e, n)) :
@@ -88,178 +84,167 @@ theorem C12_marker_reach (cx : Ctx) (tc : TapCtx) (r : Bytes) (e0 : IEnv) (hf : 
   exact C12_marker_histories cx tc r e0 hf hpred cmds e n hc
 
 -- ---------------------------------------------------------------------------------------------
+-- failed steps
+
+/-- a failed (or refused) `step` command leaves the session exactly as it was -/
+theorem fnStep_failed_id (cx : Ctx) (tc : TapCtx) (e : IEnv) (h : (fnStep cx tc e).2 = false) : (fnStep cx tc e).1 = e := by
+  unfold fnStep at h ⊢
+  by_cases hd : e.done = true
+  · simp [hd]
+  · simp only [hd, Bool.false_eq_true, if_false] at h ⊢
+    cases hs : stepSession cx tc e with
+    | ok e' => simp [hs] at h
+    | error x => rfl
+
+/-- a performed `step` command is a successful `instStep` -/
+theorem fnStep_ok (cx : Ctx) (tc : TapCtx) (e : IEnv) (h : (fnStep cx tc e).2 = true) : instStep cx tc e = .ok (fnStep cx tc e).1 := by
+  unfold fnStep at h ⊢
+  unfold instStep
+  by_cases hd : e.done = true
+  · simp [hd] at h
+  · simp only [hd, Bool.false_eq_true, if_false] at h ⊢
+    cases hs : stepSession cx tc e with
+    | ok e' => rfl
+    | error x => simp [hs] at h
+
+/-- one debugger command as the debugger performs it (`fn_step` / `fn_rewind`): a refused or failed
+    command changes nothing -/
+def fnCmd (cx : Ctx) (tc : TapCtx) (e : IEnv) : C04.Cmd → IEnv
+  | .step => (fnStep cx tc e).1
+  | .rewind => (instRewind e).getD e
+
+/-- the session after a command history (any commands, failing steps included) -/
+def runCmds (cx : Ctx) (tc : TapCtx) : List C04.Cmd → IEnv → IEnv
+  | [], e => e
+  | c :: cs, e => runCmds cx tc cs (fnCmd cx tc e c)
+
+theorem run_reach (cx : Ctx) (tc : TapCtx) (e0 : IEnv) : ∀ (cmds : List C04.Cmd) (e : IEnv), Reach cx tc e0 e →
+    Reach cx tc e0 (runCmds cx tc cmds e) := by
+  intro cmds
+  induction cmds with
+  | nil => intro e h; exact h
+  | cons c cs ih =>
+    intro e h
+    simp only [runCmds]
+    apply ih
+    cases c with
+    | step =>
+      simp only [fnCmd]
+      cases hb : (fnStep cx tc e).2 with
+      | true => exact .step h (fnStep_ok cx tc e hb)
+      | false => rw [fnStep_failed_id cx tc e hb]; exact h
+    | rewind =>
+      simp only [fnCmd]
+      cases hr : instRewind e with
+      | none => exact h
+      | some e' => exact .rewind h hr
+
+-- ---------------------------------------------------------------------------------------------
 -- the listing the debugger builds against the execution-order decoding
 
-/-- no instruction text is longer than the 1029 characters `snprintf` stores (btcdeb.cpp:344):
-    in particular every push is at most 514 bytes (`noLongPush_of_short`) -/
-def NoLongPush (e0 : IEnv) : Prop := ∀ l ∈ rawListing e0, l.kind = .op → l.text.toList.length ≤ 1029
+theorem description_plan (t : Tce) (h : t.i = 0) :
+    t.description.map Line.plan = Spec.commitmentPlan t.control t.p t.pathLen t.i := by
+  simp [Tce.description, Spec.commitmentPlan, h, List.map_append, branchLine_plan, checkLine_plan, List.range_eq_range',
+    Function.comp_def]
 
-theorem buildListing_eq_raw (e0 : IEnv) (h : NoLongPush e0) : buildListing e0 = rawListing e0 :=
-  cutAll_id _ 0 h
-
-/-- all pushes of a script are at most 514 bytes -/
-def ShortPushes (s : Bytes) : Prop := ∀ p ∈ decodeFrom s, p.2.data.length ≤ 514
-
-/-- sufficient: the scripts of all sections only push items of at most 514 bytes -/
-theorem noLongPush_of_short (e0 : IEnv) (h1 : ShortPushes e0.see.script) (h2 : ShortPushes e0.successor)
-    (h3 : ShortPushes (lastPayload e0.see.script)) (h4 : ShortPushes (e0.p2shStack.getLast?.getD [])) : NoLongPush e0 := by
-  intro l hl hk
-  simp only [rawListing, List.mem_append] at hl
-  rcases hl with ((hl | hl) | hl) | hl
-  · by_cases hsv : (e0.see.sigversion == SigVersion.TAPSCRIPT) = true
-    · by_cases hvs : (e0.isP2sh && !e0.p2shStack.isEmpty) = true
-      · simp [hsv, hvs] at hl
-      · cases htce : e0.tce with
-        | none => simp [hsv, hvs, htce] at hl
-        | some t =>
-          simp only [hsv, hvs, htce, if_true, Bool.false_eq_true, if_false] at hl
-          have := description_kind t l hl; rw [this] at hk; cases hk
-    · simp [hsv] at hl
-  · exact opLines_short _ _ h1 l hl
-  · split at hl
-    · simp only [List.mem_cons] at hl
-      rcases hl with rfl | hl
-      · cases hk
-      · exact opLines_short _ _ h2 l hl
-    · simp at hl
-  · split at hl
-    · simp only [List.mem_cons] at hl
-      rcases hl with rfl | hl
-      · cases hk
-      · split at hl
-        · exact opLines_short _ _ h3 l hl
-        · exact opLines_short _ _ h4 l hl
-    · simp at hl
-
-/-- LISTING, sessions without a taproot commitment phase (plain scripts, legacy spends with
-    scriptPubKey and P2SH sections, P2WSH): before the cut of long texts, the listing the debugger
-    builds is exactly the execution-order decoding, where the redeem script shown for a P2SH
-    scriptPubKey is the data of the last instruction of the scriptSig.
-    `hstack`: a session that starts on a P2SH-pattern script has the redeem script on its stack
-    (otherwise the first operation fails and the debugger lists no P2SH section at all). -/
-theorem C12_listing_exact (e0 : IEnv) (hf : Fresh e0) (htce : e0.tce = none)
-    (hstack : e0.isP2sh = true → e0.p2shStack ≠ []) :
-    (rawListing e0).map Line.plan = Spec.idealListing (lastPayload e0.see.script) e0 := by
-  unfold rawListing Spec.idealListing Spec.sessionPlan Spec.tailFuture
-  simp only [htce, Spec.commitFuture, List.nil_append]
-  have hnil : (if e0.see.sigversion == SigVersion.TAPSCRIPT then
-      (if (e0.isP2sh && !e0.p2shStack.isEmpty) = true then ([] : List Line)
-       else if (e0.see.sigversion == SigVersion.TAPSCRIPT) = true then [] else []) else []) = [] := by
-    split <;> (try split) <;> (try split) <;> rfl
-  rw [hnil]
-  simp only [List.nil_append, List.map_append, opLines_plan, p2shPattern_eq]
-  by_cases hsu : e0.successor.isEmpty = true
-  · have hs0 : e0.successor = [] := by simpa using hsu
-    simp only [hsu, Bool.not_true, Bool.false_and, Bool.or_false, Bool.false_eq_true, if_false, List.map_nil, List.append_nil]
-    by_cases hp : e0.isP2sh = true
-    · have hne := hstack hp
-      have : e0.p2shStack.isEmpty = false := by cases h : e0.p2shStack with | nil => exact absurd h hne | cons a b => rfl
-      simp [hp, this, opLines_plan, Line.plan, p2shHeader, headerLine, Spec.handOverP2sh]
-    · simp [hp]
-  · have hne : e0.successor ≠ [] := by intro h; simp [h] at hsu
-    have hp : e0.isP2sh = false := (hf.succ0 hne).2
-    simp only [hsu, hp, Bool.not_false, Bool.true_and, Bool.false_and, Bool.false_or, Bool.false_eq_true, if_false,
-      if_true, List.nil_append, List.map_cons, opLines_plan]
-    by_cases hpat : (hasFlag e0.see.flags Flag.P2SH && isPayToScriptHash e0.successor) = true
-    · simp [hpat, opLines_plan, Line.plan, p2shHeader, spkHeader, headerLine, Spec.handOverP2sh, Spec.handOverSpk]
-    · simp [hpat, Line.plan, spkHeader, headerLine, Spec.handOverSpk]
+/-- LISTING.  For every fresh session the listing the debugger builds is exactly the execution-order
+    decoding: commitment steps (one line per step), the script, the scriptPubKey and P2SH sections, every
+    instruction by its name or by ALL the bytes it pushes; the redeem script shown for a P2SH scriptPubKey is
+    what the last instruction of the scriptSig leaves on the stack.
+    `hstack`: a session that starts on a P2SH-pattern script has the redeem script on its stack (otherwise
+    the first operation fails and the debugger lists no P2SH section at all);
+    `htap`: the commitment environment is fresh, belongs to a tapscript session, and the tapscript is not at
+    the same time treated as a P2SH scriptPubKey (EXCLUDED REGION: there the debugger lists no commitment lines). -/
+theorem C12_listing_exact (e0 : IEnv) (hf : Fresh e0)
+    (hstack : e0.isP2sh = true → e0.p2shStack ≠ [])
+    (htap : ∀ t, e0.tce = some t → t.i = 0 ∧ e0.see.sigversion = .TAPSCRIPT ∧ e0.isP2sh = false) :
+    (buildListing e0).map Line.plan = Spec.idealListing (lastPayload e0.see.script) e0 := by
+  have hcommit : (commitLines e0).map Line.plan = Spec.commitFuture e0.tce := by
+    unfold commitLines
+    cases htce : e0.tce with
+    | none => simp only [Spec.commitFuture]; split <;> rfl
+    | some t =>
+      obtain ⟨hi, hsv, hp⟩ := htap t htce
+      simp [hsv, hp, viaStack, Spec.commitFuture, description_plan t hi]
+  have htail : (spkSection e0 ++ p2shSection e0).map Line.plan = Spec.tailFuture (lastPayload e0.see.script) e0 := by
+    unfold spkSection p2shSection viaStack viaSucc Spec.tailFuture
+    simp only [p2shPattern_eq]
+    by_cases hsu : e0.successor.isEmpty = true
+    · simp only [hsu, Bool.not_true, Bool.false_and, Bool.or_false, Bool.false_eq_true, if_false, List.nil_append, if_true,
+        List.append_nil]
+      by_cases hp : e0.isP2sh = true
+      · have hne := hstack hp
+        have : e0.p2shStack.isEmpty = false := by cases h : e0.p2shStack with | nil => exact absurd h hne | cons a b => rfl
+        simp [hp, this, opLines_plan, Line.plan, p2shHeader, headerLine, Spec.handOverP2sh]
+      · simp [hp]
+    · have hne : e0.successor ≠ [] := by intro h; simp [h] at hsu
+      have hp : e0.isP2sh = false := (hf.succ0 hne).2.1
+      simp only [hsu, hp, Bool.not_false, Bool.true_and, Bool.false_and, Bool.false_or, Bool.false_eq_true, if_false,
+        if_true, List.nil_append, List.map_cons, List.map_append, opLines_plan]
+      by_cases hpat : (hasFlag e0.see.flags Flag.P2SH && isPayToScriptHash e0.successor) = true
+      · simp [hpat, opLines_plan, Line.plan, p2shHeader, spkHeader, headerLine, Spec.handOverP2sh, Spec.handOverSpk]
+      · simp [hpat, Line.plan, spkHeader, headerLine, Spec.handOverSpk]
+  unfold buildListing Spec.idealListing Spec.sessionPlan
+  rw [List.append_assoc, List.map_append, List.map_append, hcommit, opLines_plan, htail]
 
 -- ---------------------------------------------------------------------------------------------
--- tapscript: the commitment section has one line more than the commitment phase has steps
+-- the announced redeem script is the one that is loaded
 
-/-- LISTING, taproot script path (FINDING): the commitment section the debugger lists is
-    `Description()`: the `m` Merkle steps, then TWO lines (`Tweak: p`, `CheckTapTweak`) for the ONE
-    remaining step.  The listing is the execution-order decoding with the extra line `Tweak: p`
-    inserted at position `m`. -/
-theorem C12_listing_tapscript (r : Bytes) (e0 : IEnv) (t : Tce) (htce : e0.tce = some t) (hi0 : t.i = 0)
-    (hsv : e0.see.sigversion = .TAPSCRIPT) (hp : e0.isP2sh = false) (hsu : e0.successor = []) :
-    (rawListing e0).map Line.plan =
-      (Spec.idealListing r e0).take t.pathLen ++ (tweakLine t).plan :: (Spec.idealListing r e0).drop t.pathLen := by
-  have hraw : (rawListing e0).map Line.plan =
-      (List.range' 0 t.pathLen).map (Spec.merkleStep t.control) ++ (tweakLine t).plan :: (Spec.tweakCheck :: Spec.planOf e0.see.script) := by
-    simp [rawListing, htce, hsv, hp, hsu, Tce.description, opLines_plan, List.map_append, branchLine_plan, checkLine_plan,
-      List.range_eq_range', Function.comp_def]
-  have hideal : Spec.idealListing r e0 =
-      (List.range' 0 t.pathLen).map (Spec.merkleStep t.control) ++ (Spec.tweakCheck :: Spec.planOf e0.see.script) := by
-    simp [Spec.idealListing, Spec.sessionPlan, Spec.commitFuture, Spec.commitmentPlan, Spec.tailFuture, htce, hi0, hp, hsu]
-  have hlen : ((List.range' 0 t.pathLen).map (Spec.merkleStep t.control)).length = t.pathLen := by simp
-  rw [hraw, hideal, List.take_left' hlen, List.drop_left' hlen]
-
-/-- MARKER, taproot script path, what holds (the `_partial` theorem): while Merkle steps are pending
-    (`curr_op_seq < m`) the marked line of the debugger's listing is the operation the next step performs. -/
-theorem C12_marker_tapscript_partial (cx : Ctx) (tc : TapCtx) (e0 : IEnv) (t : Tce) (hf : Fresh e0)
-    (htce : e0.tce = some t) (hi0 : t.i = 0) (hsv : e0.see.sigversion = .TAPSCRIPT) (hp : e0.isP2sh = false)
-    (hsu : e0.successor = []) (hshort : NoLongPush e0)
-    (cmds : List C04.Cmd) (e : IEnv) (n : Int) (h : C04.execHist cx tc cmds (e0, 0) = some (e, n))
-    (hregion : markerIndex e < t.pathLen) :
-    (markedLine (buildListing e0) e).map Line.plan = Spec.pending e := by
-  have hpred : ∀ j e, C04.advance cx tc e0 j = some e → PredOk [] e := by
-    intro j e' hj _ _ _ hne _
-    rcases (j_advance cx tc e0 hf j e' hj).2.2 with h0 | h0
-    · exact absurd h0 hne
-    · rw [hsu] at h0; exact absurd h0 hne
-  obtain ⟨h0, hm⟩ := C12_marker_histories cx tc [] e0 hf hpred cmds e n h
-  have hL := C12_listing_tapscript [] e0 t htce hi0 hsv hp hsu
-  have hmlen : t.pathLen ≤ (Spec.idealListing [] e0).length := by
-    simp [Spec.idealListing, Spec.sessionPlan, Spec.commitFuture, Spec.commitmentPlan, htce, hi0]
-  have hidx : (markerIndex e).toNat < t.pathLen := by omega
-  have h1 := (insert_getElem (Spec.idealListing [] e0) t.pathLen (tweakLine t).plan hmlen).1 _ hidx
-  unfold markedLine
-  have hnn : ¬ e.currOpSeq < 0 := by unfold markerIndex at h0; omega
-  simp only [hnn, if_false, buildListing_eq_raw e0 hshort]
-  rw [← List.getElem?_map, hL]
-  unfold markerIndex at h1 hm
-  rw [h1, hm]
-
-/-- MARKER, taproot script path, the excluded region (FINDING): from the last commitment step on
-    (`m ≤ curr_op_seq`) the operation the next step performs is the line AFTER the marked one — the
-    marker lags by exactly one line; in particular in the ended state the last line of the listing is
-    still marked although nothing is pending. -/
-theorem C12_marker_tapscript_lag (cx : Ctx) (tc : TapCtx) (e0 : IEnv) (t : Tce) (hf : Fresh e0)
-    (htce : e0.tce = some t) (hi0 : t.i = 0) (hsv : e0.see.sigversion = .TAPSCRIPT) (hp : e0.isP2sh = false)
-    (hsu : e0.successor = []) (hshort : NoLongPush e0)
-    (cmds : List C04.Cmd) (e : IEnv) (n : Int) (h : C04.execHist cx tc cmds (e0, 0) = some (e, n))
-    (hregion : (t.pathLen : Int) ≤ markerIndex e) :
-    ((buildListing e0)[(markerIndex e).toNat + 1]?).map Line.plan = Spec.pending e := by
-  have hpred : ∀ j e, C04.advance cx tc e0 j = some e → PredOk [] e := by
-    intro j e' hj _ _ _ hne _
-    rcases (j_advance cx tc e0 hf j e' hj).2.2 with h0 | h0
-    · exact absurd h0 hne
-    · rw [hsu] at h0; exact absurd h0 hne
-  obtain ⟨h0, hm⟩ := C12_marker_histories cx tc [] e0 hf hpred cmds e n h
-  have hL := C12_listing_tapscript [] e0 t htce hi0 hsv hp hsu
-  have hmlen : t.pathLen ≤ (Spec.idealListing [] e0).length := by
-    simp [Spec.idealListing, Spec.sessionPlan, Spec.commitFuture, Spec.commitmentPlan, htce, hi0]
-  have hidx : t.pathLen ≤ (markerIndex e).toNat := by omega
-  have h1 := (insert_getElem (Spec.idealListing [] e0) t.pathLen (tweakLine t).plan hmlen).2.2 _ hidx
-  rw [buildListing_eq_raw e0 hshort, ← List.getElem?_map, hL, h1, hm]
+/-- in every fresh session the redeem script the listing announces for a P2SH scriptPubKey — what the last
+    instruction of the scriptSig leaves on the stack — is the item on top of the stack when the scriptPubKey is
+    entered after a push-only scriptSig (after any other scriptSig the hand-over to the redeem script fails) -/
+theorem predOk_holds (cx : Ctx) (tc : TapCtx) (e0 : IEnv) (hf : Fresh e0) :
+    ∀ j e, C04.advance cx tc e0 j = some e → PredOk (lastPayload e0.see.script) e := by
+  have hk : ∀ j e, C04.advance cx tc e0 j = some e → K e0.see.script e :=
+    advance_induction cx tc e0 _ (fun h => ⟨rfl, (hf.succ0 h).2.2.2.2⟩)
+      (fun j ep e hj _ hp hs => k_step cx tc _ _ ep e hp (j_advance cx tc e0 hf j ep hj) hs)
+  intro j e hj _ hpc _ hne _ hpo
+  have hscr := (hk j e hj hne).1
+  rw [hscr] at hpo
+  have hdp : PushOnly e0.see.script := isPushOnly_ops _ _ (Nat.le_refl _) hpo
+  have hq : ∀ j e, C04.advance cx tc e0 j = some e → Q e :=
+    advance_induction cx tc e0 _
+      (fun h => ⟨(hf.succ0 h).2.2.2.1, 0, by simp [advanceOps, hf.pcStart], by simp [topAfter, (hf.succ0 h).2.2.1]⟩)
+      (fun j ep e hj' _ hp hs => q_step cx tc _ _ hdp ep e hp (hk j ep hj') (j_advance cx tc e0 hf j ep hj') hs)
+  obtain ⟨_, k, hadv, htop⟩ := hq j e hj hne
+  rw [htop, hscr]
+  rw [hpc, hscr] at hadv
+  obtain ⟨pre, hdec, hlen⟩ := decodeFrom_advance k _ _ hadv
+  have hnil : decodeFrom ([] : Bytes) = [] := decodeFrom_none rfl
+  rw [hnil, List.append_nil] at hdec
+  unfold topAfter lastPayload
+  rw [hdec, List.take_of_length_le (by omega)]
+  cases pre.getLast? <;> rfl
 
 -- ---------------------------------------------------------------------------------------------
--- sessions without a commitment phase: full strength
+-- listing and marker of the debugger: full strength
 
-/-- MAIN THEOREM (listing and marker of the debugger, sessions without a taproot commitment phase).
-    For every such session whose pushes are at most 514 bytes and every history over {step, rewind} in
-    which no step fails:
+/-- the conclusion of C12 at one point of a session -/
+def Holds (e0 e : IEnv) : Prop :=
+  (buildListing e0).map Line.plan = Spec.idealListing (lastPayload e0.see.script) e0 ∧
+  0 ≤ markerIndex e ∧
+  (markedLine (buildListing e0) e).map Line.plan = Spec.pending e ∧
+  (e.done = true → markedLine (buildListing e0) e = none)
+
+/-- MAIN THEOREM (listing and marker of the debugger).  For every fresh session and every history over
+    {step, rewind} without a failing step:
     (1) the listing the debugger prints is exactly the execution-order decoding of the session;
-    (2) the line it marks (and echoes after `step` / `rewind`) is the operation the next step performs,
-        no line being marked when nothing is pending;
+    (2) `curr_op_seq` is not negative, and the line the debugger marks (and echoes after `step` / `rewind`) is
+        the operation the next step performs, no line being marked when nothing is pending;
     (3) in the ended state no line is marked. -/
-theorem C12_marked_line (cx : Ctx) (tc : TapCtx) (e0 : IEnv) (hf : Fresh e0) (htce : e0.tce = none)
-    (hstack : e0.isP2sh = true → e0.p2shStack ≠ []) (hshort : NoLongPush e0)
-    (hpred : ∀ j e, C04.advance cx tc e0 j = some e → PredOk (lastPayload e0.see.script) e)
+theorem C12_marked_line (cx : Ctx) (tc : TapCtx) (e0 : IEnv) (hf : Fresh e0)
+    (hstack : e0.isP2sh = true → e0.p2shStack ≠ [])
+    (htap : ∀ t, e0.tce = some t → t.i = 0 ∧ e0.see.sigversion = .TAPSCRIPT ∧ e0.isP2sh = false)
     (cmds : List C04.Cmd) (e : IEnv) (n : Int) (h : C04.execHist cx tc cmds (e0, 0) = some (e, n)) :
-    (buildListing e0).map Line.plan = Spec.idealListing (lastPayload e0.see.script) e0 ∧
-    (markedLine (buildListing e0) e).map Line.plan = Spec.pending e ∧
-    (e.done = true → markedLine (buildListing e0) e = none) := by
-  have hL := C12_listing_exact e0 hf htce hstack
-  rw [← buildListing_eq_raw e0 hshort] at hL
-  obtain ⟨h0, hm⟩ := C12_marker_histories cx tc _ e0 hf hpred cmds e n h
+    Holds e0 e := by
+  have hL := C12_listing_exact e0 hf hstack htap
+  obtain ⟨h0, hm⟩ := C12_marker_histories cx tc _ e0 hf (predOk_holds cx tc e0 hf) cmds e n h
   have hnn : ¬ e.currOpSeq < 0 := by unfold markerIndex at h0; omega
   have hmk : (markedLine (buildListing e0) e).map Line.plan = Spec.pending e := by
     unfold markedLine
     simp only [hnn, if_false]
     rw [← List.getElem?_map, hL]; exact hm
-  refine ⟨hL, hmk, ?_⟩
+  refine ⟨hL, h0, hmk, ?_⟩
   intro hd
   have : Spec.pending e = none := by simp [Spec.pending, hd]
   rw [this] at hmk
@@ -267,18 +252,15 @@ theorem C12_marked_line (cx : Ctx) (tc : TapCtx) (e0 : IEnv) (hf : Fresh e0) (ht
   | none => rfl
   | some l => rw [hx] at hmk; cases hmk
 
-/-- plain scripts (no scriptPubKey follows): no further hypothesis -/
-theorem C12_plain (cx : Ctx) (tc : TapCtx) (e0 : IEnv) (hf : Fresh e0) (htce : e0.tce = none) (hsu : e0.successor = [])
-    (hstack : e0.isP2sh = true → e0.p2shStack ≠ []) (hshort : NoLongPush e0)
-    (cmds : List C04.Cmd) (e : IEnv) (n : Int) (h : C04.execHist cx tc cmds (e0, 0) = some (e, n)) :
-    (buildListing e0).map Line.plan = Spec.idealListing (lastPayload e0.see.script) e0 ∧
-    (markedLine (buildListing e0) e).map Line.plan = Spec.pending e ∧
-    (e.done = true → markedLine (buildListing e0) e = none) := by
-  refine C12_marked_line cx tc e0 hf htce hstack hshort ?_ cmds e n h
-  intro j e' hj _ _ _ hne _
-  rcases (j_advance cx tc e0 hf j e' hj).2.2 with h0 | h0
-  · exact absurd h0 hne
-  · rw [hsu] at h0; exact absurd h0 hne
+/-- MAIN THEOREM, all command histories: the same at every point of every history of `step` and `rewind`
+    commands as the debugger performs them — refused commands and FAILED steps included (they leave the
+    session where it was: the same line stays marked, the same operation is pending) -/
+theorem C12_session (cx : Ctx) (tc : TapCtx) (e0 : IEnv) (hf : Fresh e0)
+    (hstack : e0.isP2sh = true → e0.p2shStack ≠ [])
+    (htap : ∀ t, e0.tce = some t → t.i = 0 ∧ e0.see.sigversion = .TAPSCRIPT ∧ e0.isP2sh = false)
+    (cmds : List C04.Cmd) : Holds e0 (runCmds cx tc cmds e0) := by
+  obtain ⟨cs, n, hc⟩ := reach_hist cx tc e0 _ (run_reach cx tc e0 cmds e0 .init)
+  exact C12_marked_line cx tc e0 hf hstack htap cs _ n hc
 
 /-- `pending` is what `step` does: when an instruction is pending and the step succeeds, the step
     executed exactly that instruction (the one the specification decodes at the position) and the new
@@ -292,7 +274,7 @@ theorem pending_is_next_step (cx : Ctx) (tc : TapCtx) (e e' : IEnv) (htce : e.tc
     (e.pc = [] → e.isP2sh = false → e.successor ≠ [] → Spec.pending e = some Spec.handOverSpk ∧
         e'.see.script = e.successor ∧ e'.pc = e'.see.script) := by
   cases stepSession_cases cx tc e e' hs with
-  | merkle t t' htce' _ _ _ _ _ => rw [htce] at htce'; cases htce'
+  | merkle t t' htce' _ _ _ _ _ _ => rw [htce] at htce'; cases htce'
   | tweak t htce' _ _ => rw [htce] at htce'; cases htce'
   | op g see' _ hne hg hst hv =>
     simp only [view, Prod.mk.injEq] at hv
@@ -302,7 +284,7 @@ theorem pending_is_next_step (cx : Ctx) (tc : TapCtx) (e e' : IEnv) (htce : e.tc
     rw [hg] at hdo; simp only [Option.map_some] at hdo
     have hpe : e.pc.isEmpty = false := by cases h : e.pc with | nil => exact absurd h hne | cons a b => rfl
     exact ⟨⟨g.opcode, g.data⟩, g.rest, hdo.symm, hpc, hscr, by simp [Spec.pending, hnd, htce, hpe, ← hdo]⟩
-  | p2sh redeem _ hpc0 hp2 hr hv =>
+  | p2sh redeem _ hpc0 hp2 hr _ hv =>
     simp only [view, Prod.mk.injEq] at hv
     obtain ⟨hscr, _, hpc, _⟩ := hv
     refine ⟨fun h => absurd hpc0 h, fun _ _ => ?_, fun _ h => (by rw [hp2] at h; cases h)⟩
@@ -317,67 +299,15 @@ theorem pending_is_next_step (cx : Ctx) (tc : TapCtx) (e e' : IEnv) (htce : e.tc
     exact ⟨fun h => absurd hpc0 h, fun _ h => (by rw [hp2] at h; cases h), fun _ _ h => absurd hsu0 h⟩
 
 -- ---------------------------------------------------------------------------------------------
--- legacy spends: the announced redeem script is the one that is loaded, for BIP16-style scriptSigs
-
-/-- for a spend whose scriptSig consists of data pushes only (what BIP16 requires of a P2SH spend),
-    starting with an empty stack, the redeem script the listing announces — the data of the last
-    instruction of the scriptSig — is the item on top of the stack when the scriptPubKey is entered -/
-theorem predOk_of_pushOnly (cx : Ctx) (tc : TapCtx) (e0 : IEnv) (hf : Fresh e0) (htce : e0.tce = none)
-    (hpush : DataPushOnly e0.see.script) (hstack0 : e0.see.stack = []) (hcond0 : e0.see.cond.allTrue = true) :
-    ∀ j e, C04.advance cx tc e0 j = some e → PredOk (lastPayload e0.see.script) e := by
-  have hq : ∀ j e, C04.advance cx tc e0 j = some e → Q e0.see.script e :=
-    advance_induction cx tc e0 _
-      ⟨htce, fun _ => ⟨rfl, hcond0, 0, by simp [advanceOps, hf.pcStart], by simp [topAfter, hstack0]⟩⟩
-      (fun j ep e hk _ hp hs => q_step cx tc _ _ hpush ep e hp (j_advance cx tc e0 hf j ep hk) hs)
-  intro j e hj _ hpc _ hne _
-  obtain ⟨_, hq2⟩ := hq j e hj
-  obtain ⟨hscr, _, k, hadv, htop⟩ := hq2 hne
-  rw [htop, ← hscr]
-  rw [hpc] at hadv
-  obtain ⟨pre, hdec, hlen⟩ := decodeFrom_advance k _ _ hadv
-  have hnil : decodeFrom ([] : Bytes) = [] := decodeFrom_none rfl
-  rw [hnil, List.append_nil] at hdec
-  unfold topAfter lastPayload
-  rw [hdec, List.take_of_length_le (by omega)]
-  cases pre.getLast? <;> rfl
-
-/-- MAIN THEOREM for legacy spends (scriptSig, scriptPubKey and P2SH sections): the conclusion of
-    `C12_marked_line` for every spend whose scriptSig consists of data pushes -/
-theorem C12_legacy_spend (cx : Ctx) (tc : TapCtx) (e0 : IEnv) (hf : Fresh e0) (htce : e0.tce = none)
-    (hpush : DataPushOnly e0.see.script) (hstack0 : e0.see.stack = []) (hcond0 : e0.see.cond.allTrue = true)
-    (hshort : NoLongPush e0)
-    (cmds : List C04.Cmd) (e : IEnv) (n : Int) (h : C04.execHist cx tc cmds (e0, 0) = some (e, n)) :
-    (buildListing e0).map Line.plan = Spec.idealListing (lastPayload e0.see.script) e0 ∧
-    (markedLine (buildListing e0) e).map Line.plan = Spec.pending e ∧
-    (e.done = true → markedLine (buildListing e0) e = none) := by
-  refine C12_marked_line cx tc e0 hf htce ?_ hshort (predOk_of_pushOnly cx tc e0 hf htce hpush hstack0 hcond0) cmds e n h
-  -- a push-only script is not the P2SH pattern (which starts with OP_HASH160)
-  intro hp
-  have hpat := hf.p2sh0 hp
-  exfalso
-  have hd := p2shPattern_decodable _ _ hpat
-  simp only [p2shPattern, Bool.and_eq_true, beq_iff_eq] at hpat
-  obtain ⟨⟨⟨⟨_, hlen⟩, h0⟩, _⟩, _⟩ := hpat
-  match hs : e0.see.script, hlen, h0 with
-  | b0 :: t, _, h0 =>
-    have hb0 : b0.toNat = 169 := by simpa [byteAt, Op.OP_HASH160] using h0
-    have hg0 : getOp (b0 :: t) = some { opcode := 169, data := [], rest := t } := by
-      simp [getOp, hb0, Op.OP_PUSHDATA4]
-    have := hpush (e0.see.script.length, { opcode := 169, data := [], rest := t }) (by rw [hs, decodeFrom_some hg0]; simp)
-    simp [Op.OP_PUSHDATA4] at this
-
--- ---------------------------------------------------------------------------------------------
 -- the hypotheses are what `setup_environment` establishes
 
-/-- sessions produced by `Instance::setup_environment` are fresh, given what the callers guarantee:
-    a taproot script path has a non-empty script, and a scriptSig that is followed by a scriptPubKey
-    decodes completely (for every script that went through `parse_script`: `hasValidOps_decodable`)
-    and is not itself the P2SH pattern -/
+/-- sessions produced by `Instance::setup_environment` are fresh, given what the callers guarantee for a
+    scriptSig (a script followed by a scriptPubKey: legacy branch of `configure_tx_txin`): it decodes completely
+    (`hasValidOps_decodable`), is not itself the P2SH pattern, starts on an empty stack, without commitment phase -/
 theorem setup_fresh (stack : List Bytes) (script : Bytes) (flags : Nat) (sv : SigVersion) (succ : Bytes)
     (z : Bool) (ed : ExecData) (tce : Option Tce) (pm : List (Bytes × Bytes)) (pk : List Bytes) (e0 : IEnv)
     (h : setupEnvironment stack script flags sv succ z ed tce pm pk = .ok e0)
-    (htap : tce.isSome = true → script ≠ [])
-    (hsucc : succ ≠ [] → Decodable script ∧ p2shPattern flags script = false) : Fresh e0 := by
+    (hsucc : succ ≠ [] → Decodable script ∧ p2shPattern flags script = false ∧ stack = [] ∧ tce = none) : Fresh e0 := by
   unfold setupEnvironment IEnv.init at h
   split at h
   · cases h
@@ -390,19 +320,19 @@ theorem setup_fresh (stack : List Bytes) (script : Bytes) (flags : Nat) (sv : Si
       · split at h
         · cases h
         · cases h
-          refine ⟨rfl, rfl, ?_, ?_, ?_⟩
+          refine ⟨rfl, rfl, ?_, ?_, rfl, ?_⟩
           · intro hd
-            simp only [Bool.and_eq_true, List.isEmpty_iff] at hd
-            obtain ⟨hs, hsu⟩ := hd
+            simp only [Bool.and_eq_true, List.isEmpty_iff, Option.isNone_iff_eq_none] at hd
+            obtain ⟨⟨hs, hsu⟩, ht⟩ := hd
             subst hs
-            refine ⟨?_, rfl, by simp [p2shPattern], hsu⟩
-            cases tce with
-            | none => rfl
-            | some t => exact absurd rfl (htap rfl)
-          · intro hp; simpa using hp
+            exact ⟨ht, rfl, by simp [p2shPattern], hsu⟩
+          · intro hp
+            have hp' : (sv == SigVersion.BASE && p2shPattern flags script) = true := hp
+            simp only [Bool.and_eq_true] at hp'
+            exact hp'.2
           · intro hne
-            obtain ⟨hd, hp⟩ := hsucc hne
-            exact ⟨hd, by simpa using hp⟩
+            obtain ⟨hd, hp, hst, ht⟩ := hsucc hne
+            exact ⟨hd, by show (sv == SigVersion.BASE && p2shPattern flags script) = false; rw [hp, Bool.and_false], hst, rfl, ht⟩
 
 -- ---------------------------------------------------------------------------------------------
 -- non-vacuity and the findings, on concrete sessions
@@ -437,61 +367,54 @@ example : exP2shRes = some (27,
      some (some "#0004 5293616161616161616161616161616161616161", some "5293616161616161616161616161616161616161"),
      some (some "<<< P2SH script >>>", some "<<< P2SH script >>>")]) := by decide +kernel
 
-/-- … and this session satisfies the hypotheses of `C12_legacy_spend` -/
+/-- … and this session satisfies the hypotheses of `C12_session` that are not structural -/
 def exHyp : Bool :=
   match exP2sh with
   | .ok e0 => decide (e0.pc = e0.see.script) && decide (e0.tce = none) && decide (e0.see.stack = []) && e0.see.cond.allTrue &&
-      (decodeFrom e0.see.script).all (fun p => decide (p.2.opcode ≤ Op.OP_PUSHDATA4))
+      !e0.isP2sh && !e0.sigscriptExecuted
   | .error _ => false
 example : exHyp = true := by decide +kernel
 
-/-- FINDING (taproot script path, two path nodes, script `OP_1 OP_2`): the listing has the four
-    commitment lines Branch, Branch, Tweak, CheckTapTweak for three commitment steps; from the third
-    step on the echoed / marked line is the one BEFORE the pending operation, and at the end `#0005 2`
-    stays marked with nothing pending. -/
+/-- the marked / echoed line and the pending operation after a command history with `runCmds` (failing steps allowed) -/
+def runMarks (e0 : IEnv) (cmds : List C04.Cmd) : Option String × Option String :=
+  let e := runCmds exCx exTc cmds e0
+  (echoLine (buildListing e0) e, (Spec.pending e).map (fun l => l.text))
+
+/-- taproot script path, two path nodes, script `OP_1 OP_2`: three commitment lines for three commitment steps;
+    the echoed line is the pending operation at every point, nothing is marked at the end -/
 def exControl : Bytes := 0xc0 :: List.replicate 32 0x11 ++ List.replicate 32 0x22 ++ List.replicate 32 0x33
 def exTap : Except ScriptError IEnv :=
   setupEnvironment [] [0x51, 0x52] 0 .TAPSCRIPT [] false {}
     (some (Tce.init exTc exControl (List.replicate 32 0x44) [0x51, 0x52])) [] []
-def exTapRes : Option (Nat × List (Option (Option String × Option String))) :=
+def exTapRes : Option (Nat × List (Option String × Option String)) :=
   match exTap with
-  | .ok e0 => some ((buildListing e0).length,
-      [exMarks e0 [.step, .step], exMarks e0 [.step, .step, .step], exMarks e0 [.step, .step, .step, .step],
-       exMarks e0 [.step, .step, .step, .step, .step], exMarks e0 [.step, .step, .step, .step, .step, .step]])
+  | .ok e0 => some ((buildListing e0).length, [2, 3, 4, 5, 6].map (fun k => runMarks e0 (List.replicate k .step)))
   | .error _ => none
-example : exTapRes = some (6,
-    [some (some "#0002 Tweak: 1111111111111111111111111111111111111111111111111111111111111111", some "CheckTapTweak"),
-     some (some "#0003 CheckTapTweak", some "1"),
-     some (some "#0004 1", some "2"),
-     some (some "#0005 2", none),
-     some (some "#0005 2", none)]) := by decide +kernel
+example : exTapRes = some (5,
+    [(some "#0002 CheckTapTweak: 1111111111111111111111111111111111111111111111111111111111111111",
+      some "CheckTapTweak: 1111111111111111111111111111111111111111111111111111111111111111"),
+     (some "#0003 1", some "1"), (some "#0004 2", some "2"), (none, none), (none, none)]) := by decide +kernel
 
-/-- FINDING (long pushes): an instruction text longer than the limit (1029 characters for the first
-    10000 lines: pushes of 515 bytes and more) is cut — the listing does not show the bytes that are pushed -/
-theorem C12_long_push_cut (i : Nat) (d : Bytes) (h : cutLimit i < 2 * d.length) :
-    (cutText i (toHex d)).toList.length = cutLimit i ∧ cutText i (toHex d) ≠ toHex d := by
-  have hl : (cutText i (toHex d)).toList.length = cutLimit i := by
-    unfold cutText
-    rw [String.toList_ofList, List.length_take, toHex_length]; omega
-  refine ⟨hl, ?_⟩
-  intro heq
-  rw [heq, toHex_length] at hl
-  omega
-example : cutLimit 0 = 1029 ∧ cutLimit 9999 = 1029 ∧ cutLimit 10000 = 1030 := by decide +kernel
-
-/-- FINDING (step after a failed step): `OP_0 OP_VERIFY OP_5`: the second step fails; the debugger
-    still marks `#0001 OP_VERIFY`, but the position has moved on and the next step executes `OP_5`. -/
+/-- a failed step (`OP_0 OP_VERIFY OP_5`: the second step fails) leaves the session where it was: repeating it
+    fails again, the same line stays marked and is the pending operation, a rewind still works -/
 def exFail : Except ScriptError IEnv :=
   setupEnvironment [] [0x00, 0x69, 0x55] 0 .BASE [] false {} none [] []
-def exFailRes : Option (List String) :=
+def exFailRes : Option (List (Option String × Option String) × Bool) :=
   match exFail with
-  | .ok e0 =>
-    let e1 := (fnStep exCx exTc e0).1
-    let r2 := fnStep exCx exTc e1
-    let r3 := fnStep exCx exTc r2.1
-    some [toString r2.2, (echoLine (buildListing e0) r2.1).getD "-", ((Spec.pending r2.1).map (fun l => l.text)).getD "-",
-          toString r3.2, toString (r3.1.see.stack.map (fun b => b.map UInt8.toNat))]
+  | .ok e0 => some ([runMarks e0 [.step, .step], runMarks e0 [.step, .step, .step], runMarks e0 [.step, .step, .rewind]],
+      decide (runCmds exCx exTc [.step, .step, .step] e0 = runCmds exCx exTc [.step] e0))
   | .error _ => none
-example : exFailRes = some ["false", "#0001 OP_VERIFY", "5", "true", "[[], [5]]"] := by decide +kernel
+example : exFailRes = some ([(some "#0001 OP_VERIFY", some "OP_VERIFY"), (some "#0001 OP_VERIFY", some "OP_VERIFY"),
+    (some "#0000 0", some "0")], true) := by decide +kernel
+
+/-- a P2SH spend whose redeem script (the single byte `01`) is pushed by `OP_1`: the P2SH section lists the script
+    that is handed over to -/
+def exSmall : Except ScriptError IEnv :=
+  setupEnvironment [] [0x00, 0x51] 1 .BASE ([0xa9, 0x14] ++ (0x01 :: List.replicate 19 0) ++ [0x87]) false {} none [] []
+def exSmallRes : Option (Bytes × Nat) :=
+  match exSmall with
+  | .ok e0 => some (lastPayload e0.see.script, (buildListing e0).length)
+  | .error _ => none
+example : exSmallRes = some ([1], 7) := by decide +kernel
 
 end Btcdeb.Proofs.C12
